@@ -447,6 +447,9 @@ func (e *Engine) initStubs() {
 				if v := e.poolTake(st, th, p); v != nil {
 					if iv, ok := v.(IfaceV); ok {
 						e.poolMark(st, iv, false)
+						if ip, ok := iv.V.(Ptr); ok && e.Cfg.Race && st.Multi {
+							e.acquire(st, th, shadowKey{ip.Obj, "pool"})
+						}
 					}
 					return v
 				}
@@ -480,6 +483,11 @@ func (e *Engine) initStubs() {
 			p, _ = e.poolResolve(st, p, false) // may fork (the instruction is re-executed): no state change before it
 			e.poolMark(st, x, true)
 			e.poolPut(st, th, p, x)
+			if ip, ok := x.V.(Ptr); ok && e.Cfg.Race && st.Multi {
+				e.release(st, th, shadowKey{ip.Obj, "pool"}, false) // Put(x) synchronises before the Get that returns x
+			}
+			// the object is up for grabs the moment Put has stored it: whatever the caller does next is a separate step
+			th.ParkNext = true
 			return nil
 		}
 		e.poolMark(st, x, true)
@@ -787,6 +795,8 @@ func (e *Engine) SetRedirects(vrt *ssa.Package) {
 		"context.TODO":            "CtxBackground",
 		"context.WithCancel":      "CtxWithCancel",
 		"context.WithValue":       "CtxWithValue",
+		"context.WithDeadline":    "CtxWithDeadline",
+		"context.WithTimeout":     "CtxWithTimeout",
 		"(*sync.Map).Load":        "SyncMapLoad",
 		"(*sync.Map).Store":       "SyncMapStore",
 		"(*sync.Map).LoadOrStore": "SyncMapLoadOrStore",
